@@ -185,6 +185,14 @@ func genC06(seed uint64, run int, tier string) *Plan {
 			op = Op{K: "sleep", Ms: int64(1 + r.IntN(3000))}
 		}
 		tp.Ops = append(tp.Ops, op)
+		if r.IntN(25) == 0 {
+			// everything dropped: the file must then hold the empty database (and the drop events), not the last
+			// non-empty image
+			for _, d := range dbs {
+				tp.Ops = append(tp.Ops, Op{K: "dropDB", DB: d})
+			}
+			tp.Ops = append(tp.Ops, Op{K: "restart"})
+		}
 		if retention && r.IntN(4) == 0 {
 			tp.Ops = append(tp.Ops, Op{K: "sleep", Ms: int64(1100 + r.IntN(5000))})
 		}
